@@ -38,4 +38,4 @@ m=json.load(open(sys.argv[1])); m["round"]=int(__import__("os").environ.get("ROU
 m['confirmed_by_me']={'base_commit':sys.argv[2],'suite_with_change':'all packages ok (go test -vet=off -count=1 ./...)','demo_with_change':'FAIL','demo_without_change':'PASS','demo_flags':sys.argv[3]}
 json.dump(m,open(sys.argv[1],'w'),indent=1)
 PY
-LAB_IDS=4 /verif/tools/lab.sh in_$name $d/patch.diff $id "$@"
+LAB_COMMITTED=1 LAB_IDS=4 /verif/tools/lab.sh in_$name $d/patch.diff $id "$@"
